@@ -26,7 +26,7 @@ def base_event(op, data, out, before):
     return {"op": op, "in": before, "inafter": mat(data), "out": mat(out), "tin": container(data), "tout": container(out),
             "colsin": labels(data), "colsout": labels(out), "colsexp": [],
             "from": 0, "to": 0, "c1": 1, "c2": 1, "k1": "0.0", "k2": "0.0", "knew": "0.0", "factor": "0.0", "alpha": "0.0",
-            "x0": "0.0", "size": 0, "keys": [], "n": "0.0", "counts": [], "probs": []}
+            "x0": "0.0", "size": 0, "keys": [], "n": "0.0", "counts": [], "probs": [], "zero": []}
 
 
 def make_data(rng, n, ncols, frame, classes=(0.0, 1.0, 2.0)):
@@ -91,14 +91,28 @@ def call(rng, kind, n, ncols, frame, window=None, seed=0, pool=None):
         e.update(c1=c1, x0=num(x0))
     elif kind in ("resample", "dirichlet"):
         present = sorted(set(np.asarray(data)[:, ycol - 1].tolist()))
+        zero = []
         if kind == "resample":
-            probs = {present[0]: rng.choice([0.2, 0.5, 0.9])} if rng.random() < 0.5 else {k: 1.0 / len(present) for k in present}
+            r = rng.random()
+            if r < 0.4:
+                probs = {present[0]: rng.choice([0.2, 0.5, 0.9])}
+            elif r < 0.7 or len(present) < 3:
+                probs = {k: 1.0 / len(present) for k in present}
+            else:       # a class explicitly given probability 0 (it must then never be drawn), another one left unspecified
+                probs = {present[0]: 0.0, present[1]: rng.choice([0.25, 0.5])}
+                zero = [num(present[0])]
             arg = dict(probs)
             out = I.LabelProbabilityInjector()(data, f, t, colarg(frame, names, ycol), arg)
         else:
             out = I.LabelDirichletInjector()(data, f, t, colarg(frame, names, ycol), {k: rng.choice([1, 3, 10]) for k in present})
         e = base_event("resample", data, out, before)
-        e.update(c1=ycol)
+        if kind == "resample" and zero:
+            # the claim only applies when the requested distribution can be honoured: every class that is to receive
+            # positive probability occurs in the window (otherwise its mass is documented to be spread over all rows)
+            win = set(np.asarray(data)[f:t, ycol - 1].tolist())
+            if not all(k in win for k in present if num(k) not in zero):
+                zero = []
+        e.update(c1=ycol, zero=zero if kind == "resample" else [])
     elif kind == "cover":
         size = rng.randint(1, n)
         vals = np.asarray(data)[:, ycol - 1]
